@@ -128,6 +128,12 @@ def from_model(mod, rng, texts=None, flagged=False, only_plain=False):
                 for m in d['methods'] + d['statics']:
                     if rng.random() < 0.15:
                         continue                  # undocumented member
+                    names = [a[1] for a in m['args']]
+                    if len(names) >= 2 and rng.random() < 0.35:
+                        # a decoy overload whose parameter names are a permutation of the real ones, listed first
+                        perm = list(reversed(names))
+                        if perm != names:
+                            methods.append((m['callee'], perm, [False] * len(perm)))
                     methods.append((m['callee'], [a[1] for a in m['args']], [a[2] is not None for a in m['args']]))
                     if rng.random() < 0.2:        # a decoy overload with different parameter names
                         methods.append((m['callee'], [a[1] + '_other' for a in m['args']] + ['extra'],
